@@ -107,7 +107,7 @@ def run(name, runs, checks):
             t = sh("cd /repo && cargo test --workspace --no-fail-fast --offline 2>&1 | grep -E '^test result' | head -1")
             print(f"[{name}] (should break {props}) baseline: {t.stdout.strip()}")
         for c in checks:
-            r = sh(f"cd /verif && VERIF_RUNS={runs} ./sim/target/sim/sim check {c} quick 2>&1 | grep -E 'VIOLATION|KNOWN|HARNESS|class=|^check' | cut -c1-260")
+            r = sh(f"cd /verif && VERIF_NO_EVIDENCE=1 VERIF_RUNS={runs} ./sim/target/sim/sim check {c} quick 2>&1 | grep -E 'VIOLATION|KNOWN|HARNESS|class=|^check' | cut -c1-260")
             print(f"  {c}: " + r.stdout.strip().replace("\n", "\n      "))
     finally:
         sh("git -C /repo checkout -- .")
